@@ -226,6 +226,26 @@ def generic_new_null(ctx, untyped_null):
             _program([Apple, Box, use]))
 
 
+def generic_subclass(forwarding, as_return):
+    """class A; class Box<T>(val f: T); class C<T>(f: T) : Box<T | A>(f);  val x: Box<A> = C<A>(A())   (or a function returning it)
+    -- a generic subclass that passes its own type parameter on: whether C<..> is related to Box<A> depends on the argument"""
+    T, U = tp.TypeParameter('T'), tp.TypeParameter('U')
+    A = ast.ClassDeclaration('A', [], ast.ClassDeclaration.REGULAR, fields=[], functions=[])
+    Box = ast.ClassDeclaration('Box', [], ast.ClassDeclaration.REGULAR, fields=[ast.FieldDeclaration('f', T)], functions=[],
+                               is_final=False, type_parameters=[T])
+    sup = Box.get_type().new([U if forwarding else A.get_type()])
+    C = ast.ClassDeclaration('C', [ast.SuperClassInstantiation(sup, [ast.Variable('g')])], ast.ClassDeclaration.REGULAR,
+                             fields=[ast.FieldDeclaration('g', U if forwarding else A.get_type())], functions=[], type_parameters=[U])
+    new = ast.New(C.get_type().new([A.get_type()]), [ast.New(A.get_type(), [])])
+    t = Box.get_type().new([A.get_type()])
+    if as_return:
+        d = ast.FunctionDeclaration('mk', [], t, new, ast.FunctionDeclaration.FUNCTION)
+    else:
+        d = ast.VariableDeclaration('x', new, is_final=True, var_type=t)
+    return ('template/generic-subclass-%s-%s' % ('forwarding' if forwarding else 'fixed', 'return' if as_return else 'variable'),
+            _program([A, Box, C, d]))
+
+
 _BUILDERS = {}
 
 
@@ -276,6 +296,9 @@ def all_templates():
             _reg(out, generic_call, i, wd)
             _reg(out, nested_reassign, i, wd)
             _reg(out, generic_new_null, i, wd)
+    for fw in (0, 1):
+        for r in (0, 1):
+            _reg(out, generic_subclass, fw, r)
     _reg(out, generic_call_operand, 0, 1)
     _reg(out, generic_call_operand, 0, 0)
     _reg(out, generic_call_operand, 1, 1)
